@@ -123,15 +123,20 @@ class Ref:
     def apply_liouville(L, rho, order):
         return Ref.unvec(L @ Ref.vec(rho, order), order)
 
+    _pc = {}
+
     @staticmethod
     def paulis(n, po):
-        out = []
-        for ks in itertools.product(range(4), repeat=n):
-            m = np.eye(1, dtype=complex)
-            for k in ks:
-                m = np.kron(m, Ref.PAULI[po[k]])
-            out.append(m)
-        return out
+        key = (n, po)
+        if key not in Ref._pc:
+            out = []
+            for ks in itertools.product(range(4), repeat=n):
+                m = np.eye(1, dtype=complex)
+                for k in ks:
+                    m = np.kron(m, Ref.PAULI[po[k]])
+                out.append(m)
+            Ref._pc[key] = out
+        return Ref._pc[key]
 
     @staticmethod
     def cfac(n, normalize):
@@ -139,9 +144,20 @@ class Ref:
         return 1.0 if normalize else float(2**n)
 
     @staticmethod
+    def bmat(n, normalize, po):
+        """row k = conj(row-vectorised Pauli string k)/s, s = sqrt(d) if normalised else 1."""
+        s = math.sqrt(2**n) if normalize else 1.0
+        return np.array([p.reshape(-1).conj() / s for p in Ref.paulis(n, po)])
+
+    @staticmethod
     def pauli(Ks, n, normalize, po):
-        """documented Pauli-Liouville matrix: P[k,l] = tr(P_k† Φ(P_l)) / s², s = sqrt(d) if
-        normalised else 1 (independent of the vectorisation order)."""
+        """documented Pauli-Liouville matrix P[k,l] = tr(P_k† Φ(P_l)) / s² (independent of the
+        vectorisation order), computed as B L B† with the row-order SPEC Liouville matrix."""
+        B = Ref.bmat(n, normalize, po)
+        return B @ Ref.liouville(Ks, "row") @ B.conj().T
+
+    @staticmethod
+    def pauli_slow(Ks, n, normalize, po):
         ps = Ref.paulis(n, po)
         s2 = 2**n if normalize else 1.0
         return np.array([[np.trace(pk.conj().T @ Ref.apply_kraus(Ks, pl)) / s2 for pl in ps] for pk in ps])
@@ -149,13 +165,21 @@ class Ref:
     @staticmethod
     def chi(Ks, n, normalize, po):
         """chi[k,l] = Σ_K c_k(K) conj(c_l(K)), c_k(K) = tr(P_k† K)/s."""
-        ps = Ref.paulis(n, po)
-        s = math.sqrt(2**n) if normalize else 1.0
-        cs = [np.array([np.trace(p.conj().T @ K) / s for p in ps]) for K in Ks]
+        B = Ref.bmat(n, normalize, po)
+        cs = [B @ K.reshape(-1) for K in Ks]
         return sum(np.outer(c, c.conj()) for c in cs)
 
     @staticmethod
     def apply_pauli(P, rho, n, normalize, po):
+        """r_k = tr(P_k† ρ)/s ; o = P r ; out = Σ o_k P_k / (s c²)."""
+        B = Ref.bmat(n, normalize, po)
+        c = Ref.cfac(n, normalize)
+        d = rho.shape[0]
+        o = P @ (B @ rho.reshape(-1))
+        return (B.conj().T @ o).reshape(d, d) / (c * c)
+
+    @staticmethod
+    def apply_pauli_slow(P, rho, n, normalize, po):
         ps = Ref.paulis(n, po)
         s = math.sqrt(2**n) if normalize else 1.0
         c = Ref.cfac(n, normalize)
@@ -165,6 +189,14 @@ class Ref:
 
     @staticmethod
     def apply_chi(X, rho, n, normalize, po):
+        """out = Σ_kl X[k,l] P_k ρ P_l† / (s² c²)."""
+        B = Ref.bmat(n, normalize, po)
+        c = Ref.cfac(n, normalize)
+        C = B.conj().T @ X @ B / (c * c)
+        return Ref.apply_choi(C, rho, "row")
+
+    @staticmethod
+    def apply_chi_slow(X, rho, n, normalize, po):
         ps = Ref.paulis(n, po)
         s = math.sqrt(2**n) if normalize else 1.0
         c = Ref.cfac(n, normalize)
@@ -252,6 +284,26 @@ def replay_eq(call_src, expected, exact=True):
 # correspondence suites (exact, Gaussian integers)
 
 
+def nomut(f, *arrs, **kw):
+    """call f on copies of the arrays; an input modified in place is a failure."""
+    copies = [a.copy() for a in arrs]
+    out = f(*copies, **kw)
+    out = np.array(out) if isinstance(out, list) else out
+    for a, c in zip(arrs, copies):
+        if not np.array_equal(a, c):
+            raise AssertionError("the function modified its input array in place")
+    return out
+
+
+def nomut_kraus(f, kraus, **kw):
+    ks = [(q, K.copy()) for q, K in kraus]
+    out = f(ks, **kw)
+    for (_, a), (_, c) in zip(kraus, ks):
+        if not np.array_equal(a, c):
+            raise AssertionError("the function modified a Kraus operator in place")
+    return out
+
+
 class Suite:
     def __init__(self, ctx, name):
         self.ctx, self.name = ctx, name
@@ -291,7 +343,7 @@ def corr_vec(ctx):
 
     s = Suite(ctx, "vec")
     rng = ctx.rng
-    dims = [2, 3, 4, 8] + ([5, 16] if ctx.thorough else [])
+    dims = [2, 3, 4, 8, 16] + ([5, 6, 32] if ctx.thorough else [])
     reps = 4 if ctx.thorough else 2
     for order in ORDERS:
         for d in dims:
@@ -302,11 +354,11 @@ def corr_vec(ctx):
                 A = gi_matrix(rng, d, lo=-3, hi=3)
                 v = gi_matrix(rng, 1, d * d, lo=-3, hi=3)[0]
                 s.add(f"VEC {ONUM[order]} {d} {n} {gi_tokens(A)}",
-                      lambda A=A, order=order: st.vectorization(A.copy(), order=order),
+                      lambda A=A, order=order: nomut(st.vectorization, A, order=order),
                       ("vectorization", f"{order}:d{d}"), f"st.vectorization({arr_src(A)}, order={order!r})",
                       f"vectorization order={order} d={d}")
                 s.add(f"UNVEC {ONUM[order]} {d} {n} {gi_tokens(v)}",
-                      lambda v=v, order=order: st.unvectorization(v.copy(), order=order),
+                      lambda v=v, order=order: nomut(st.unvectorization, v, order=order),
                       ("unvectorization", f"{order}:d{d}"), f"st.unvectorization({arr_src(v)}, order={order!r})",
                       f"unvectorization order={order} d={d}")
             # state-vector input: vectorises |psi><psi|
@@ -346,7 +398,7 @@ def corr_reshuffle(ctx):
                 M = gi_matrix(rng, d * d, lo=-3, hi=3)
                 base = f"RESH {ONUM[order]} {d} {gi_tokens(M)}"
                 for fname in ("_reshuffling", "choi_to_liouville", "liouville_to_choi"):
-                    s.add(base, lambda M=M, order=order, fname=fname: getattr(st, fname)(M.copy(), order=order),
+                    s.add(base, lambda M=M, order=order, fname=fname: nomut(getattr(st, fname), M, order=order),
                           (fname, f"{order}:d{d}"), f"st.{fname}({arr_src(M)}, order={order!r})",
                           f"{fname} order={order} d={d}")
     s.run()
@@ -380,15 +432,22 @@ def corr_kraus(ctx):
         descr = ";".join(f"{qs}" for qs, _ in kraus)[:60]
         for order in ORDERS:
             s.add(f"KCHOI {ONUM[order]} {n} {toks}",
-                  lambda kraus=kraus, order=order: st.kraus_to_choi([(q, K.copy()) for q, K in kraus], order=order),
+                  lambda kraus=kraus, order=order: nomut_kraus(st.kraus_to_choi, kraus, order=order),
                   ("kraus_to_choi", f"{order}:n{n}:{descr}"), f"st.kraus_to_choi({kraus_src(kraus)}, order={order!r})",
                   f"kraus_to_choi order={order} on {descr}")
             if order != "system":
                 s.add(f"KLIOU {ONUM[order]} {n} {toks}",
-                      lambda kraus=kraus, order=order: st.kraus_to_liouville([(q, K.copy()) for q, K in kraus], order=order),
+                      lambda kraus=kraus, order=order: nomut_kraus(st.kraus_to_liouville, kraus, order=order),
                       ("kraus_to_liouville", f"{order}:n{n}:{descr}"),
                       f"st.kraus_to_liouville({kraus_src(kraus)}, order={order!r})",
                       f"kraus_to_liouville order={order} on {descr}")
+        # the same operators given as gates (first branch of _set_gate_and_target_qubits)
+        order = rng.choice(ORDERS)
+        gsrc = "[" + ", ".join(f"gates.Unitary({arr_src(K)}, *{list(qs)!r}, check_unitary=False)" for qs, K in kraus) + "]"
+        s.add(f"KCHOI {ONUM[order]} {n} {toks}",
+              lambda kraus=kraus, order=order: st.kraus_to_choi([gates.Unitary(K.copy(), *qs, check_unitary=False) for qs, K in kraus], order=order),
+              ("kraus_to_choi-gates", f"{order}:n{n}:{descr}"), f"st.kraus_to_choi({gsrc}, order={order!r})",
+              f"kraus_to_choi on Unitary gates order={order} on {descr}")
         # the same operators as a gates.KrausChannel, in a register with one more qubit
         order = rng.choice(ORDERS)
         big = n + (1 if n < 3 else 0)
@@ -433,7 +492,7 @@ def corr_pauli(ctx):
                 M = gi_matrix(rng, 4**n)
                 for fname, cmd in (("liouville_to_pauli", "L2P"), ("choi_to_chi", "L2P"), ("pauli_to_liouville", "P2L"), ("chi_to_choi", "P2L")):
                     s.add(f"{cmd} {ONUM[order]} {n} {po_tokens(po)} {gi_tokens(M)}",
-                          lambda M=M, order=order, po=po, fname=fname: getattr(st, fname)(M.copy(), normalize=False, order=order, pauli_order=po),
+                          lambda M=M, order=order, po=po, fname=fname: nomut(getattr(st, fname), M, normalize=False, order=order, pauli_order=po),
                           (fname, f"{order}:n{n}:{po}"),
                           f"st.{fname}({arr_src(M)}, normalize=False, order={order!r}, pauli_order={po!r})",
                           f"{fname} n={n} order={order} pauli_order={po}")
@@ -456,7 +515,7 @@ def corr_stinespring(ctx):
             kraus = gi_kraus_set(rng, n, e)
             v = gi_matrix(rng, 1, e)[0]
             s.add(f"K2S {n} {kraus_tokens(kraus)} {gi_tokens(v)}",
-                  lambda kraus=kraus, v=v, n=n: st.kraus_to_stinespring([(q, K.copy()) for q, K in kraus], nqubits=n, initial_state_env=v.copy()),
+                  lambda kraus=kraus, v=v, n=n: nomut(lambda v_: nomut_kraus(st.kraus_to_stinespring, kraus, nqubits=n, initial_state_env=v_), v),
                   ("kraus_to_stinespring", f"n{n}:e{e}"),
                   f"st.kraus_to_stinespring({kraus_src(kraus)}, nqubits={n}, initial_state_env={arr_src(v)})",
                   f"kraus_to_stinespring n={n} dim_env={e}")
@@ -469,7 +528,7 @@ def corr_stinespring(ctx):
             d = 2**n
             S = gi_matrix(rng, d * e)
             s.add(f"S2K {d} {e} {gi_tokens(S)} {gi_tokens(v)}",
-                  lambda S=S, v=v, e=e, n=n: np.array(st.stinespring_to_kraus(S.copy(), e, initial_state_env=v.copy(), nqubits=n)),
+                  lambda S=S, v=v, e=e, n=n: nomut(lambda S_, v_: st.stinespring_to_kraus(S_, e, initial_state_env=v_, nqubits=n), S, v),
                   ("stinespring_to_kraus", f"n{n}:e{e}"),
                   f"np.array(st.stinespring_to_kraus({arr_src(S)}, {e}, initial_state_env={arr_src(v)}, nqubits={n}))",
                   f"stinespring_to_kraus n={n} dim_env={e}")
@@ -494,6 +553,8 @@ class Search:
         self.ctx.case()
         if not ok:
             self.bad += 1
+            if callable(python):
+                python = python()
             self.ctx.fail(key, what, python, expected=expected, observed=observed, broken=[self.name])
 
     def done(self):
@@ -565,7 +626,7 @@ def search_conversions(ctx):
     if ctx.thorough:
         configs += [(3, 1), (3, 3), (3, 8)]
     else:
-        configs += [(3, rng.choice([1, 2, 3]))]
+        configs += [(3, rng.choice([1, 2, 3])), (3, rng.choice([4, 7, 9]))]
     nconf = 0
     for n, rank in configs:
         d = 2**n
@@ -575,7 +636,7 @@ def search_conversions(ctx):
         kraus_in = [(tuple(range(n)), K) for K in Ks]
         rho = cmatrix(rng, d)
         phi_rho = Ref.apply_kraus(Ks, rho)
-        po_list = ALL_PO if ctx.thorough and n <= 2 else ["IXYZ"] + rng.sample(ALL_PO, 3 if n < 3 else 1)
+        po_list = ALL_PO if ctx.thorough and n <= 2 else (["IXYZ"] + rng.sample(ALL_PO, 3) if n < 3 else rng.sample(ALL_PO, 2))
         orders = ORDERS
         for order in orders:
             for normalize in (False, True):
@@ -632,10 +693,12 @@ def _one_conversion(ctx, S, st, a, b, reps, aux, Ks, rho, phi_rho, n, order, nor
         return
     except Exception as e:
         S.check(False, key, f"{a}_to_{b} raised {type(e).__name__}: {e} for n={n} rank={len(Ks)} {optdesc}",
-                _conv_replay(a, b, rep, kw if 'kw' in dir() else {}, None, None, order, n))
+                lambda: _conv_replay(a, b, rep, {}, None, None, order, n))
         return
     ctx.stat(f"conv:{a}_to_{b}")
     ctx.case((a, b, n, len(Ks), order, normalize, po))
+    same = all(np.array_equal(x[1], y[1]) for x, y in zip(rep, rep_in)) if a == "kraus" else np.array_equal(rep, rep_in)
+    S.check(same, f"{a}_to_{b}:mutates-input", f"{a}_to_{b} modified its input in place ({optdesc})", lambda: _conv_replay(a, b, rep, kw, None, None, order, n))
     # expected scale: leaving an un-normalised Pauli-type representation multiplies by c²
     lam = c * c if a in ("pauli", "chi") else 1.0
     if a in ("pauli", "chi") and b in ("pauli", "chi"):
@@ -656,7 +719,7 @@ def _one_conversion(ctx, S, st, a, b, reps, aux, Ks, rho, phi_rho, n, order, nor
             ok = close(act, lam * phi_rho, TOL * max(1.0, lam) * 10)
         S.check(ok, key, f"{a}_to_{b} ({optdesc}, n={n}, Kraus rank {len(Ks)}) does not represent the same channel"
                 + (f" (expected factor {lam:g})" if lam != 1 else ""),
-                _conv_replay(a, b, rep, kw, exp, None, order, n), expected=str(np.round(exp, 6).tolist())[:300],
+                lambda: _conv_replay(a, b, rep, kw, exp, None, order, n), expected=str(np.round(exp, 6).tolist())[:300],
                 observed=str(np.round(np.asarray(out), 6).tolist())[:300])
         return
     if b == "kraus":
@@ -670,7 +733,7 @@ def _one_conversion(ctx, S, st, a, b, reps, aux, Ks, rho, phi_rho, n, order, nor
             coeffs = np.asarray(out[1])
             ok = close(np.abs(coeffs), [np.linalg.norm(K) for K in ops], 1e-7 * max(1.0, lam))
         S.check(ok, key, f"{a}_to_{b} ({optdesc}, n={n}, rank {len(Ks)}): returned Kraus operators do not reproduce the channel",
-                _conv_replay(a, b, rep, kw, exp, "kraus", order, n))
+                lambda: _conv_replay(a, b, rep, kw, exp, "kraus", order, n))
         return
     if b == "stinespring":
         Sout = np.asarray(out)
@@ -687,7 +750,7 @@ def _one_conversion(ctx, S, st, a, b, reps, aux, Ks, rho, phi_rho, n, order, nor
             ok = close(got, exp, 1e-7 * max(1.0, lam)) and all(close(x, y) for x, y in zip(ops, ops2))
             ok = ok and close(Ref.apply_stinespring(Sout, e0, rho), lam * phi_rho, 1e-6 * max(1.0, lam))
         S.check(ok, key, f"{a}_to_{b} ({optdesc}, n={n}, rank {len(Ks)}): dilation does not reproduce the channel",
-                _conv_replay(a, b, rep, kw, lam * Ref.choi(Ks, "row"), "stinespring", order, n))
+                lambda: _conv_replay(a, b, rep, kw, lam * Ref.choi(Ks, "row"), "stinespring", order, n))
         return
 
 
@@ -799,6 +862,13 @@ def search_spectral(ctx):
                         ok = ops.ndim == 4 and close(sum(np.outer(Ref.vec(L, order), Ref.vec(R, order).conj()) for L, R in zip(ops[0], ops[1])), C, 1e-7)
                         py = HDR + REF_SRC + (f"import warnings; warnings.simplefilter('ignore')\nC = {arr_src(C)}\nops, _ = st.choi_to_kraus(C, order={order!r})\n"
                                               f"assert np.allclose(sum(np.outer(vec(L, {order!r}), vec(R, {order!r}).conj()) for L, R in zip(ops[0], ops[1])), C, atol=1e-6)\n")
+                    if kind == "cp":
+                        # validate_cp=False (no Hermiticity / positivity test) and an explicit tolerance
+                        ops2, co2 = st.choi_to_kraus(C.copy(), precision_tol=1e-10, order=order, validate_cp=False)
+                        ok = ok and np.asarray(ops2).ndim == 3 and close(Ref.choi(list(np.asarray(ops2)), order), C, 1e-7) and len(ops2) == r
+                        if order != "system":
+                            ops3, _ = st.liouville_to_kraus(Ref.liouville(Ks, order), order=order)
+                            ok = ok and close(Ref.choi(list(np.asarray(ops3)), order), C, 1e-7)
                     ctx.stat(f"spectral:{kind}")
                     S.check(ok, f"choi_to_kraus:{kind}:{order}",
                             f"choi_to_kraus on a {kind} map of rank {r} (n={n}, order={order}) does not reproduce the Choi matrix", py)
@@ -858,6 +928,27 @@ def search_stinespring(ctx):
                 ctx.case(("st2", b, n, e, order, normalize, po))
                 S.check(ok, f"stinespring_to_{b}", f"stinespring_to_{b} (n={n}, dim_env={e}, order={order}, normalize={normalize}, pauli_order={po}) does not represent Tr_env U(ρ⊗|v><v|)U†",
                         HDR + f"out = np.asarray(st.stinespring_to_{b}({arr_src(U)}, {kws}))\nexp = {arr_src(expv)}\nassert np.allclose(out, exp, atol=1e-6), (out, exp)\n")
+            # choi/liouville/pauli/chi -> stinespring with an explicit environment state
+            r = len(Ks)
+            Kl = [K for K in Ks]
+            rank = np.linalg.matrix_rank(Ref.choi(Kl, "row"), tol=1e-9)
+            venv = cmatrix(rng, 1, rank)[0]
+            venv = venv / np.linalg.norm(venv)
+            srcs = {"choi": Ref.choi(Kl, order), "liouville": Ref.liouville(Kl, order), "pauli": Ref.pauli(Kl, n, True, po), "chi": Ref.chi(Kl, n, True, po)}
+            for a, x in srcs.items():
+                f = getattr(st, f"{a}_to_stinespring")
+                kw = {"order": order, "nqubits": n, "initial_state_env": venv.copy()}
+                if a in ("pauli", "chi"):
+                    kw.update(normalize=True, pauli_order=po)
+                kws = ", ".join(f"{k}={(arr_src(y) if isinstance(y, np.ndarray) else repr(y))}" for k, y in kw.items())
+                try:
+                    Sout = np.asarray(f(x.copy(), **kw))
+                    ok = Sout.shape == (d * rank, d * rank) and close(Ref.apply_stinespring(Sout, venv, rho), truth, 1e-6)
+                except Exception as ex:
+                    ok = False
+                ctx.stat(f"{a}_to_stinespring-env")
+                S.check(ok, f"{a}_to_stinespring:env", f"{a}_to_stinespring with an explicit environment state v does not satisfy Tr_env S(ρ⊗|v><v|)S† = Φ(ρ) (n={n}, rank {rank}, order={order})",
+                        HDR + f"S = st.{a}_to_stinespring({arr_src(x)}, {kws})\nprint(S.shape)\n# expected: Tr_env S (rho x |v><v|) S^dag == channel(rho)\n")
             # Kraus -> Stinespring -> Kraus with a random environment state, operators on sub-registers
             nn = n + 1
             kraus = [(rand_targets(rng, nn, rng.randint(1, nn)), None) for _ in range(e)]
@@ -910,6 +1001,11 @@ def search_to_helpers(ctx):
                         S.check(ok, f"{fname}:{order}:{'norm' if normalize else 'unnorm'}",
                                 f"{fname}(U, normalize={normalize}, order={order}, pauli_order={po}) is not the documented matrix of ρ ↦ UρU† (n={n})",
                                 HDR + f"out = st.{fname}({arr_src(U)}, normalize={normalize}, order={order!r}, pauli_order={po!r})\nexp = {arr_src(exp())}\nassert np.allclose(out, exp, atol=1e-8)\n")
+        try:
+            ok = close(st.to_stinespring(U.copy()), U)
+        except Exception:
+            ok = False
+        S.check(ok, "to_stinespring:default", f"to_stinespring(U) with defaults is not U (n={n})", HDR + f"U = {arr_src(U)}\nassert np.allclose(st.to_stinespring(U), U)\n")
         # to_stinespring on a partition inside a larger register
         nn = n + 1
         part = rand_targets(rng, nn, n)
@@ -1195,16 +1291,47 @@ def harness_selfcheck(ctx):
             ok &= close(Ref.apply_liouville(Ref.liouville(Ks, order), rho, order), truth)
         for normalize in (False, True):
             po = rng.choice(ALL_PO)
-            ok &= close(Ref.apply_pauli(Ref.pauli(Ks, n, normalize, po), rho, n, normalize, po), truth)
+            P = Ref.pauli(Ks, n, normalize, po)
+            X = Ref.chi(Ks, n, normalize, po)
+            ok &= close(P, Ref.pauli_slow(Ks, n, normalize, po))
+            ok &= close(Ref.apply_pauli(P, rho, n, normalize, po), truth) and close(Ref.apply_pauli_slow(P, rho, n, normalize, po), truth)
+            ok &= close(Ref.apply_chi_slow(X, rho, n, normalize, po), truth)
             ok &= close(Ref.apply_chi(Ref.chi(Ks, n, normalize, po), rho, n, normalize, po), truth)
     if not ok:
         raise RuntimeError("C17 harness self-check failed (SPEC library inconsistent)")
 
 
+def limit_blas_threads(n=1):
+    """the matrices here are tiny: multi-threaded BLAS on a shared machine is ~50x slower.
+    Best effort, no effect on results."""
+    import ctypes
+    import re
+
+    try:
+        libs = {m.group(0) for m in re.finditer(r"/\S*openblas\S*\.so\S*", open("/proc/self/maps").read())}
+    except OSError:
+        return
+    for lib in libs:
+        try:
+            h = ctypes.CDLL(lib)
+        except OSError:
+            continue
+        for sym in ("scipy_openblas_set_num_threads64_", "scipy_openblas_set_num_threads", "openblas_set_num_threads64_", "openblas_set_num_threads"):
+            f = getattr(h, sym, None)
+            if f is not None:
+                try:
+                    f(n)
+                except Exception:
+                    pass
+                break
+
+
 def run(ctx):
     from qibo import set_backend
+    import scipy.linalg  # noqa: F401  (load its BLAS before limiting threads)
 
     set_backend("numpy")
+    limit_blas_threads(1)
     MODULES, THEOREMS = registry(PROP)
     ctx.theorems = THEOREMS
     build_and_audit(ctx, PROP, MODULES, THEOREMS)
